@@ -37,7 +37,7 @@ ANCHORS = ['pfhedge.nn.modules.hedger:Hedger.compute_hedge',
            'pfhedge.features.container:FeatureList.get',
            'pfhedge.features.features:Barrier.get']
 DECIDING = ["model_input.declared_order", "feature.step_equals_column", "branches.agree", "prev_hedge.is_last_output", "prev_hedge.zero_at_step0"]
-REQUIRED_BRANCHES = ["prev_hedge.first", "prev_hedge.middle", "option_with_two_underliers", "underlier_on_another_grid", "H>1", "second_call_same_shape", "second_call_other_paths", "barrier.down.nonmonotone"]
+REQUIRED_BRANCHES = ["prev_hedge.first", "prev_hedge.middle", "option_with_two_underliers", "underlier_on_another_grid", "H>1", "second_call_same_shape", "second_call_other_paths", "barrier.down.nonmonotone", "sibling_hedger_shares_features"]
 
 
 class TwoUnderlierOption(BaseDerivative, OptionMixin):
@@ -215,6 +215,10 @@ def drv_taps(ctx, k, rng):
         return  # the requested model does not exist for this derivative (e.g. Whalley-Wilmott for a lookback put)
     if n_h > 1:
         ctx.branch("H>1")
+    sib = None
+    if desc["model"] != "ww" and rng.random() < 0.3:
+        sib = P.sibling(hedger, rng)  # a second hedger on the same feature objects, evaluated in between: its state is not this hedger's prev_hedge
+        ctx.branch("sibling_hedger_shares_features")
     ins, outs = [], []
     h1 = hedger.model.register_forward_pre_hook(lambda m, inp: ins.append(inp[0].detach().clone()))
     h2 = hedger.model.register_forward_hook(lambda m, inp, out: outs.append(out.detach().clone()))
@@ -225,6 +229,10 @@ def drv_taps(ctx, k, rng):
             if r == 1:
                 ctx.branch("second_call_same_shape" if second == "same" else "second_call_other_paths")
             derivative.simulate(n_paths=npth)
+            if sib is not None:
+                P.materialize(sib, derivative, hedge)
+                with torch.no_grad():
+                    sib.compute_hedge(derivative, hedge)
             ins.clear()
             outs.clear()
             grad = bool(rng.random() < 0.3)
